@@ -94,6 +94,12 @@ CHECKS.update({
     note="Trusted: TLC, Validate.tla, the synthesis of profiles by editing a private copy of the standard reference tree (same nested format as a compiled profile). Paths below MSH are not edited (the message creates MSH itself).",
     ref="DESIGN.md §4 C18, §3.10"),
 })
+CHECKS.update({
+ "C01": dict(technique="TLA+ reference grammar (Er7.tla) with a TLC-enumerated space of abstract documents (Er7MC); the documents embedded into every real segment definition and parsed / re-encoded through every parser entry point; TLC (Er7Trace) computes the premise (canonical, within the exported shape, well-formed leaves) and decides identity",
+    text="TLC checks the grammar's laws on the bounded document space (round trip, trimming = canonical form, fixpoint, leaves kept, position law, closure) and hands its reachable documents to the harness, which embeds them into (quick: 30 per version; thorough: all ~1900) segment definitions at field slots whose datatype admits the shape, with leaves from per-datatype pools (text with inner blanks, escape sequences incl. multi-character ones, dates, times, numbers), plus sparsely and densely populated full segments; every text goes through parse_segment, parse_message with group finding on and off, parse_field and parse_component under TOLERANT, and TLC demands the encoding to equal the text whenever the text is in the property's domain.",
+    note="Trusted: TLC, Er7.tla / Escape.tla (premise), the exported shapes (counts of components and subcomponents per field). Numeric leaves are generated in plain decimal form, dates within years 1000-9999. Known finding: v2.1 RX1 rows.",
+    ref="DESIGN.md §4 C01, §3.1"),
+})
 NOT_YET = {}
 def main():
     props = [json.loads(l) for l in open(os.path.join(HERE, "properties.jsonl"))]
